@@ -194,7 +194,7 @@ type simServer struct {
 	clean    bool // no injected cache-side faults (reference servers)
 }
 
-func (w *runWorld) newServer(name string, parallel int, clean bool) *simServer {
+func (w *runWorld) newServer(name string, parallel, batch int, clean bool) *simServer {
 	cfg := w.cfg
 	srv := &simServer{name: name, w: w, cfg: cfg, parallel: parallel, f: &simFaults{}, taskReq: map[string]*reqState{}, clean: clean}
 	srv.be = &simBackend{cfg: cfg.cc, maxNodes: cfg.maxNodes, f: srv.f}
@@ -242,9 +242,9 @@ func (w *runWorld) newServer(name string, parallel int, clean bool) *simServer {
 	m.Base = model.NewBaseForVerif(srv.be, srv.rec)
 	srv.m = m
 
-	s := &Server{batchSize: cfg.batch, model: m, parallel: parallel, status: llm.ServerStatusReady}
+	s := &Server{batchSize: batch, model: m, parallel: parallel, status: llm.ServerStatusReady}
 	var err error
-	s.cache, err = NewInputCache(m, cfg.kvType, int32(cfg.numCtx*parallel), parallel, cfg.batch, cfg.multiUser)
+	s.cache, err = NewInputCache(m, cfg.kvType, int32(cfg.numCtx*parallel), parallel, batch, cfg.multiUser)
 	if err != nil {
 		panic(err)
 	}
@@ -461,11 +461,20 @@ var verifDebug = os.Getenv("VERIF_DEBUG") != ""
 // continued past a finding that is already understood.
 var verifIgnore = strings.Split(os.Getenv("VERIF_IGNORE"), ",")
 
+// VERIF_ALLPROPS=1: development aid (never set by registered checks): violations found by the oracle of
+// the property that is not being checked are reported too (signature prefix other:<ID>:).
+var verifAllProps = os.Getenv("VERIF_ALLPROPS") != ""
+
 func (w *runWorld) violate(prop, class, sig, f string, a ...any) {
 	if prop != w.prop {
 		// the other property's oracle: its check reports it; do not cut this run short
 		w.other[prop+":"+sig]++
-		return
+		if !verifAllProps {
+			return
+		}
+		// development aid: chase a violation of the other property seen in this property's configurations
+		sig = "other:" + prop + ":" + sig
+		prop = w.prop
 	}
 	if w.tainted {
 		return
@@ -740,7 +749,7 @@ func runRunner(t *testing.T, tape *verifsim.Tape, prop, tier string, keepLog boo
 		w.note("%s", w.v.describe())
 		res.Info["arm"+strconv.Itoa(cfg.arm)]++
 
-		w.main = w.newServer("main", cfg.parallel, false)
+		w.main = w.newServer("main", cfg.parallel, cfg.batch, false)
 		srv := w.main
 		srv.start()
 
